@@ -207,7 +207,10 @@ def run(R):
             st0 = rec["container"].get("self_ty") or {}
             if st0.get("def") == C.DISPLAY and rec in C.display_methods(F):
                 for o in res.returns():
-                    if C.result_variant(o.value) != 1:
+                    # an error path: an explicit Err, or the Result of the last fallible call handed back as it is
+                    # (then the state reached here is also the state after that call failed)
+                    tail = isinstance(o.value, SymV) and o.value.ty.get("k") == "adt" and o.value.ty.get("def") == "core::result::Result"
+                    if C.result_variant(o.value) != 1 and not tail:
                         continue
                     d = C.deref_self(ex, o.state)
                     for fld in ("sleeping", "options"):
